@@ -7,6 +7,8 @@ CONSTANTS
   MaxMsg = 0
   AllowHold = TRUE
   AllowBreak = TRUE
+  AllowStall = FALSE
+  Cap = 1
   AllowRemove = TRUE
   FixSenderPrune = TRUE
   FixGuardedDelete = TRUE
